@@ -15,10 +15,10 @@ PROP = dict(
             "the ackhandler target covers the 1-RTT packet number space after handshake confirmation, with the random packet-number skipping replaced by the sequential generator; path probes and 0-RTT are not exercised",
         ],
         targets=[
-            dict(name="cc", pkg="internal/congestion", test="TestVerifC20Cc", files=["mc/c20/cc/*.go"],
-                 parts=["reno-window", "cubic-window", "reno-window3", "reno-window8", "cubic-window8", "reno-pacer", "cubic-pacer", "reno-cap", "cubic-cap"]),
             dict(name="sph", pkg="internal/ackhandler", test="TestVerifC20Sph", files=["mc/c20/sph/*.go"],
                  inject={"internal/congestion": ["mc/c20/inject/*.go"]},
                  parts=["gate-reno", "gate-reno3", "gate-cubic", "gate-production"]),
+            dict(name="cc", pkg="internal/congestion", test="TestVerifC20Cc", files=["mc/c20/cc/*.go"],
+                 parts=["reno-window", "cubic-window", "reno-window3", "reno-window8", "cubic-window8", "reno-pacer", "cubic-pacer", "reno-cap", "cubic-cap"]),
         ],
     )
